@@ -91,7 +91,7 @@ def _chunk(items):
 
 def differential(out, name, consts, fields, clause, limit=None, simulate=None, depth=None, cap=None, nontrivial=None):
     """one instance: TLC run of AbbrGrammar with `consts`, every vector replayed through abbreviation.parse()"""
-    c = dict(consts, RepeatLimit=UNLIMITED if limit is None else limit, SelfClosingStyle='xhtml')
+    c = dict(consts, RepeatLimit=UNLIMITED if limit is None else limit, SelfClosingStyle='xhtml', ScChild=False)
     kw = dict(constants=c, timeout=3000, heap='8g')
     if simulate:
         kw.update(simulate=simulate, depth=depth, seed=out.seed)
@@ -167,7 +167,7 @@ def _indent_chunk(items):
 
 
 def indent_differential(out, name, consts, indents=('\t', '  ', 'xy '), per_vector=2):
-    c = dict(consts, RepeatLimit=UNLIMITED, SelfClosingStyle='html')
+    c = dict(consts, RepeatLimit=UNLIMITED, SelfClosingStyle='html', ScChild=True)
     r = common.run_tlc('AbbrGrammar', constants=c, timeout=3000, heap='8g')
     if r.violated:
         out.add_tlc(name, r)
@@ -228,11 +228,13 @@ def _tabstop_chunk(items):
         for syn in syns:
             case = {'abbr': s, 'syntax': syn}
             o = {'output.field': _mark}
-            if syn == 'html':
+            if syn in ('html', 'htmlc'):
                 o['output.format'] = False
+            if syn == 'htmlc':
+                o['comment.enabled'] = True
             try:
                 with common.Alarm(10):
-                    text = emmet.expand(s, {'syntax': syn, 'options': o})
+                    text = emmet.expand(s, {'syntax': 'html' if syn == 'htmlc' else syn, 'options': o})
             except Exception as ex:
                 bad.append(('expand raised', dict(case, exception=type(ex).__name__, site=common.innermost_emmet_frame(ex))))
                 continue
@@ -243,7 +245,7 @@ def _tabstop_chunk(items):
 
 
 def tabstop_differential(out, name, consts, per_vector=2):
-    c = dict(consts, RepeatLimit=UNLIMITED, SelfClosingStyle='html')
+    c = dict(consts, RepeatLimit=UNLIMITED, SelfClosingStyle='html', ScChild=False)
     r = common.run_tlc('AbbrGrammar', constants=c, timeout=3000, heap='8g')
     if r.violated:
         out.add_tlc(name, r)
@@ -255,11 +257,11 @@ def tabstop_differential(out, name, consts, per_vector=2):
     r.tagged = {}
     if r.mode == 'bfs':
         out.exhaustive = r.exhaustive if out.exhaustive is None else (out.exhaustive and r.exhaustive)
-    syns = ('html', 'pug', 'haml', 'slim')
+    syns = ('html', 'pug', 'haml', 'slim', 'htmlc')           # htmlc: html with comment.enabled
     items = []
     for s, v in vecs.items():
         h = zlib.crc32(s.encode()) + out.seed
-        rows = sorted(set(syns[(h + 3 * j) % 4] for j in range(per_vector)))
+        rows = sorted(set(syns[(h + 3 * j) % 5] for j in range(per_vector)))
         items.append((s, v['marked'], rows))
         out.evaluations += len(rows)
         if len(_stops(v['marked']['html'])) >= 2:
@@ -279,7 +281,9 @@ def tabstop_replay(case):
     emmet = common.import_emmet()
     c = case['case']
     o = {'output.field': _mark}
-    if c['syntax'] == 'html':
+    if c['syntax'] in ('html', 'htmlc'):
         o['output.format'] = False
+    if c['syntax'] == 'htmlc':
+        o['comment.enabled'] = True
     return 'expand(%r, syntax %s) ->\n%s\nexpected tabstops (model) %r' % (
-        c['abbr'], c['syntax'], emmet.expand(c['abbr'], {'syntax': c['syntax'], 'options': o}), c.get('expected'))
+        c['abbr'], c['syntax'], emmet.expand(c['abbr'], {'syntax': 'html' if c['syntax'] == 'htmlc' else c['syntax'], 'options': o}), c.get('expected'))
